@@ -568,6 +568,82 @@ func TestC07(t *testing.T) {
 		c.Event("messages_on_wire", W*per)
 		c.Event("retry_with_writers_runs", 1)
 	})
+	// the same on a multi-stream association: writers of messages without a stream of their own
+	// (they leave on the default stream 0) and writers that name stream 0 share that stream
+	rec.Suite("retry-with-writers-sctp", rec.N(40, 4000), func(c *ev.Case) {
+		r := c.R
+		W := 2 + r.IntN(3)
+		per := 6
+		c.Class("retry-with-writers-sctp/W=%d", W)
+		assoc := sctpmem.New()
+		seed := r.Uint32()
+		assoc.WriteScript = func(seq int, b []byte) (int, error) {
+			x := uint32(seq)*2654435761 ^ seed
+			x ^= x >> 15
+			if len(b) > 8 && x%3 == 0 {
+				return 1 + int(x>>8)%(len(b)-1), &memnet.TempError{Msg: "temporary transport error"}
+			}
+			return len(b), nil
+		}
+		msc := diam.VerifNewSCTPConn(assoc)
+		defer diam.VerifRelease(msc)
+		conn, err := diam.NewConn(msc, "peer", diam.HandlerFunc(func(diam.Conn, *diam.Message) {}), ctx.Parser)
+		if err != nil {
+			c.Fail(ev.Sig{"op": "setup"}, nil, nil, "NewConn: %v", err)
+			return
+		}
+		okIDs := map[uint32]int{}
+		sizes := map[uint32]int{}
+		for w := 0; w < W; w++ {
+			for s := 0; s < per; s++ {
+				sizes[uint32(w)<<16|uint32(s)] = c07Sizes[(w+s)%len(c07Sizes)]
+			}
+		}
+		var mu sync.Mutex
+		var wg sync.WaitGroup
+		var werr atomic.Value
+		for w := 0; w < W; w++ {
+			wg.Add(1)
+			go func(w int) {
+				defer wg.Done()
+				for s := 0; s < per; s++ {
+					m, id := c07Message(ctx, w, s, sizes[uint32(w)<<16|uint32(s)])
+					var err error
+					if w%2 == 0 {
+						_, err = m.WriteToWithRetry(conn, 50)
+					} else {
+						_, err = m.WriteToStreamWithRetry(conn, 0, 50)
+					}
+					if err != nil {
+						werr.Store(fmt.Errorf("writer %d seq %d: %v", w, s, err))
+						return
+					}
+					mu.Lock()
+					okIDs[id]++
+					mu.Unlock()
+				}
+			}(w)
+		}
+		wg.Wait()
+		var log []byte
+		for _, wr := range assoc.Writes() {
+			if wr.Stream == 0 {
+				log = append(log, wr.Data...)
+			}
+		}
+		assoc.FeedEOF()
+		<-assoc.Closed()
+		if e := werr.Load(); e != nil {
+			c.Fail(ev.Sig{"op": "write-error", "how": "retry-with-writers-sctp"}, nil, nil, "a write with 50 retries failed on an association that only reports temporary errors: %v", e)
+			return
+		}
+		if _, problem := checkWireLog(log, okIDs, sizes); problem != "" {
+			c.Fail(ev.Sig{"op": "wire-log", "writers": W, "how": "retry-with-writers-sctp"}, nil, nil, "%d writers x %d messages with retries on stream 0 of an association (half of them without naming a stream), a third of the sends accept a part and report a temporary error: %s", W, per, problem)
+			return
+		}
+		c.Event("messages_on_wire", W*per)
+		c.Event("retry_with_writers_runs", 1)
+	})
 	rec.Suite("stalled-transport", 2*4*3*2, func(c *ev.Case) {
 		sctpConn := c.I%2 == 0
 		stallAt := (c.I / 2) % 4
@@ -627,10 +703,25 @@ func runC07Stalled(c *ev.Case, ctx *lib.Ctx, timeout, stall time.Duration, stall
 		assoc.Feed(3, hb)
 	} else {
 		mc = memnet.NewConn()
+		// the send buffer fills up once, at a byte position inside message stallAt: in its first
+		// half, or (the 100 KB message) 70 000 bytes in - however the library slices its writes
+		sizes := []int{60, 1000, 100000, 20000}
+		target := 0
+		for i := 0; i < stallAt; i++ {
+			target += sizes[i] + 28
+		}
+		if sizes[stallAt] > 65536 {
+			target += 70000
+		} else {
+			target += sizes[stallAt] / 2
+		}
+		stalled := false
 		mc.Script = func(seq int, b []byte) memnet.Outcome {
 			o := memnet.Outcome{Accept: -1, StallAt: -1}
-			if seq == stallAt {
-				o.StallAt, o.StallFor = len(b)/2, stall
+			sent := len(mc.Written())
+			if !stalled && sent <= target && target < sent+len(b) {
+				stalled = true
+				o.StallAt, o.StallFor = target-sent, stall
 			}
 			return o
 		}
@@ -647,7 +738,11 @@ func runC07Stalled(c *ev.Case, ctx *lib.Ctx, timeout, stall time.Duration, stall
 	var want [][]byte
 	failedAt, failedErr := -1, error(nil)
 	for i := 0; i < nMsgs; i++ {
-		m, _ := c07Message(ctx, 1, i, []int{60, 1000, 4200, 20000}[i%4])
+		sz := []int{60, 1000, 4200, 20000}[i%4]
+		if !sctpConn {
+			sz = []int{60, 1000, 100000, 20000}[i%4]
+		}
+		m, _ := c07Message(ctx, 1, i, sz)
 		img, _ := m.Serialize()
 		want = append(want, img)
 		var err error
